@@ -324,6 +324,12 @@ def run_seq(case):
     model = Model()
     model.refs[b"HEAD"] = SYM + b"refs/heads/master"
     backends = {"files": DiskRefsContainer(gitdir)}
+    # a second long-lived handle on the same directory (another process that opened the repository earlier): operations alternate between
+    # the two, and after every operation both must show the state the model predicts (no stale packed-refs view)
+    other_handle = DiskRefsContainer(gitdir) if case.get("two_handles") else None
+    if other_handle is not None:
+        other_handle.as_dict()
+    acting = [0]
     if plain:
         backends["dict"] = DictRefsContainer({b"HEAD": SYM + b"refs/heads/master"})
         if case.get("reftable"):
@@ -384,6 +390,8 @@ def run_seq(case):
                 feats.add("pack")
             elif kind == "reopen":
                 backends["files"] = DiskRefsContainer(gitdir)
+                if other_handle is not None and rng.random() < 0.3:
+                    other_handle = DiskRefsContainer(gitdir)
                 trace.append(op)
                 continue
             trace.append([kind] + [x.decode() if isinstance(x, bytes) else x for x in op[1:]])
@@ -409,6 +417,16 @@ def run_seq(case):
             for bname, refs in backends.items():
                 if kind == "pack" and bname != "files":
                     continue
+                idle = None
+                if bname == "files" and other_handle is not None:
+                    # sticky choice: a handle stays idle (and unobserved, see below) for a few operations, so that what it cached about
+                    # packed-refs is out of date when it acts again
+                    if rng.random() < 0.3:
+                        acting[0] = 1 - acting[0]
+                    if acting[0]:
+                        refs, idle = other_handle, refs
+                    else:
+                        idle = other_handle
                 nviol = len(viol)
                 try:
                     got = call(refs)
@@ -448,6 +466,14 @@ def run_seq(case):
                         soft.append(v)  # reported (known finding) without ending the sequence
                     else:
                         viol.append(v)
+                if idle is not None and not viol[nviol:] and rng.random() < 0.2:
+                    stats["idle_handle_observations"] = stats.get("idle_handle_observations", 0) + 1
+                    obs2 = observe(idle, NAMES + [b"refs/heads/master"])
+                    if obs2["dict"] != md:
+                        d2 = sorted(set(md) ^ set(obs2["dict"])) if isinstance(obs2["dict"], dict) else obs2["dict"]
+                        c2 = [k for k in md if isinstance(obs2["dict"], dict) and k in obs2["dict"] and obs2["dict"][k] != md[k]]
+                        viol.append({"sig": "C16/files/state/other-long-lived-handle-sees-stale-refs-after-%s" % kind, "step": step,
+                                     "only_one_side": [x.decode() for x in d2] if isinstance(d2, list) else d2, "value_differs": [x.decode() for x in c2]})
                 if bname == "files" and tag:
                     for v in viol[nviol:]:
                         v["sig"] += tag
@@ -637,7 +663,7 @@ def main(ctx):
     for i in range(ctx.budget(4, 40)):
         cases.append({"kind": "names", "seed": "%d/nc/%d" % (ctx.seed, i), "n": 400, "confirm_all": True})
     for i in range(ctx.budget(500, 6000)):
-        cases.append({"kind": "seq", "seed": "%d/s/%d" % (ctx.seed, i), "n": 25})
+        cases.append({"kind": "seq", "seed": "%d/s/%d" % (ctx.seed, i), "n": 25, "two_handles": i % 2 == 1})
     for i in range(ctx.budget(200, 2500)):
         cases.append({"kind": "seq", "seed": "%d/p/%d" % (ctx.seed, i), "n": 25, "plain": True, "reftable": True})
     for i in range(ctx.budget(40, 400)):
